@@ -90,6 +90,8 @@ class Opts:
         self.repeat_defaults = True  # element defaults inside repeating groups / choices (recorded finding when enabled)
         self.union_types = True
         self.anon_root = True
+        self.name_pool = None         # override of the hostile name alphabet
+        self.type_suffix = "Type"
         self.__dict__.update(kw)
 
 
@@ -123,7 +125,7 @@ class _B:
         return nm
 
     def names(self):
-        return HOSTILE_NAMES if self.o.hostile else PLAIN_NAMES
+        return (self.o.name_pool or HOSTILE_NAMES) if self.o.hostile else PLAIN_NAMES
 
     def simple_type(self):
         d = self.d
@@ -157,7 +159,7 @@ class _B:
                     return {"t": d(st.sampled_from(sorted(named)))}
             stp = self.simple_type()
             if d(st.booleans()):
-                nm = self.fresh([n + "Type" for n in self.names()], self.used_types)
+                nm = self.fresh([n + self.o.type_suffix for n in self.names()], self.used_types)
                 self.types[nm] = stp
                 return {"t": nm}
             return {"anon": stp}
@@ -242,7 +244,7 @@ class _B:
             # complex child: anonymous or named
             ct = self.finish(self.complex_type(depth + 1))
             if d(st.booleans()):
-                nm = self.fresh([n + "Type" for n in self.names()] + ["Base", "Derived"], self.used_types)
+                nm = self.fresh([n + self.o.type_suffix for n in self.names()] + ["Base", "Derived"], self.used_types)
                 self.types[nm] = ct
                 e["type"] = {"t": nm}
                 if o.extension and not self.in_mixed and d(st.integers(0, 2)) == 0 and not ct.get("simple") and not ct["mixed"] \
@@ -404,7 +406,7 @@ def schema_specs(draw, opts=None):
     b.current_named = None
     spec = {"tns": draw(st.sampled_from(["urn:t", "urn:t", "http://example.com/ns/1", None])) if o.namespaces else None,
             "efd": draw(st.booleans()), "afd": draw(st.integers(0, 4)) == 0}
-    root_type_name = b.fresh(["RootType", "Doc", "Order"] + [n + "Type" for n in b.names()], b.used_types)
+    root_type_name = b.fresh(["RootType", "Doc", "Order"] + [n + o.type_suffix for n in b.names()], b.used_types)
     # a third of the root elements carry their complex type anonymously (the generated class then has a namespace of its own)
     anon_root = o.anon_root and draw(st.integers(0, 2)) == 0
     b.current_named = None if anon_root else root_type_name
